@@ -196,15 +196,23 @@ def gen_a64grammar():
             return "(" + shape(e.left) + "^" + shape(e.right) + ")"
         if isinstance(e, ast.BinOp) and isinstance(e.op, ast.BitOr):
             return "(" + shape(e.left) + "|" + shape(e.right) + ")"
+        if isinstance(e, ast.BinOp) and isinstance(e.op, ast.Add):
+            return "(" + shape(e.left) + "+" + shape(e.right) + ")"
         if isinstance(e, ast.Name):
             return e.id
         return "?"
     sh_first = shape(_assign(cp, "operand_first"))
     sh_rest = shape(_assign(cp, "operand_rest"))
-    want_first = "((((register^(prefetch_op|immediate))^memory)^arith_immediate)^identifier)"
-    want_rest = "(((((register^condition)^immediate)^memory)^arith_immediate)|identifier)"
+    want_first = "((prefetch_op+word_end)|((((register^(prefetch_op|immediate))^memory)^arith_immediate)^identifier))"
+    want_rest = "(((condition+word_end)|((((register^condition)^immediate)^memory)^arith_immediate))|identifier)"
     if sh_first != want_first or sh_rest != want_rest:
         raise TranslateError("operand alternatives changed: %s / %s" % (sh_first, sh_rest))
+    we = _calls(_assign(cp, "word_end"), "WordEnd")
+    if len(we) != 1:
+        raise TranslateError("word_end: expected pp.WordEnd(chars)")
+    we_sets, we_extra = _word_arg(we[0], "word_end")
+    if we_sets != ["alphanums"]:
+        raise TranslateError("word_end: expected alphanums + extras")
     imm_shape = shape(_assign(cp, "immediate").func.value if isinstance(_assign(cp, "immediate"), ast.Call) else _assign(cp, "immediate"))
 
     ip = _assign(cp, "instruction_parser")
@@ -381,6 +389,7 @@ def gen_a64grammar():
     d("identFirstExtra", "List Nat", txt(first[1]), "identifier first = alphas + this")
     d("identRestExtra", "List Nat", txt(rest[1]), "identifier rest = alphanums + this")
     d("relocExtra", "List Nat", txt(rw[1]), "relocation = alphanums + this")
+    d("wordEndExtra", "List Nat", txt(we_extra), "WordEnd(alphanums + this) after a condition code / prefetch operation")
     d("hexPrefix", "List Nat", txt(hex_prefix), "hex_number prefix literal")
     d("operandSlots", "Nat", str(n_slots), "operand1 .. operandN of instruction_parser")
     d("lineBase", "Nat", str(line_base), "parse_file: line number = index + this + start_line")
